@@ -17,6 +17,7 @@ A, POP, ROOT, CHK, REQ, CL = 0, 1, 2, 3, 4, 5
 def cl(r1, s1, r2, s2):
     return (CL, r1, s1 + 2 * s2 + 4 * r2)
 REL = ['<', '<=', '=', '>=', '>']
+ZT = [(1, 0, 3), (1, 1, -1), (-1, 0, 2), (2, -1, 1)]   # derived variables z_t = za*x + zb*y + zk (harness/C09_lra.cpp), a relation with 6th field 100+t is over z_t
 
 
 def scen(rels, hist):
@@ -51,6 +52,10 @@ CURATED = [
     ([(1, 1, 1, 3, 1), (3, 1, 1, 2, 1), (1, 1, 1, 1, 1)], [cl(0, 0, 1, 1), (A, 0, 1), (POP, 0, 0), (A, 2, 1)]),
     ([(1, 1, 1, 3, 1), (3, 1, 1, 2, 1), (3, 1, 1, 4, 1)], [cl(1, 0, 0, 1), (A, 1, 1), (POP, 0, 0), (A, 2, 1)]),
     ([(2, 1, 0, 2, 1), (1, 1, 0, 1, 1), (3, 1, 0, 3, 1)], [(A, 0, 1), (POP, 0, 0), (A, 1, 1), (POP, 0, 0), (A, 2, 1)]),
+    # derived variables created through new_var(lin): tableau rows WITH a constant term (z = x + 3; z = x + y - 1; z = -x + 2)
+    ([(3, 1, 0, 5, 1, 100), (1, 1, 0, 1, 1, 0), (1, 1, 0, 4, 1, 0)], [(A, 0, 1), (A, 1, 1), (POP, 0, 0), (A, 2, 1), (POP, 0, 0)]),
+    ([(1, 1, 0, 2, 1, 101), (3, 1, 0, 2, 1, 0), (3, 0, 1, 2, 1, 0)], [(A, 1, 1), (A, 2, 1), (A, 0, 1), (POP, 0, 0)]),
+    ([(2, 1, 1, 3, 1, 102), (3, 1, 0, 1, 1, 0), (1, 0, 1, 0, 1, 0)], [(A, 0, 1), (A, 1, 1), (A, 2, 1), (POP, 0, 0), (POP, 0, 0)]),
     # negative coefficients
     ([(1, -1, 2, 1, 1), (3, -2, 1, 0, 1), (0, 0, -1, -1, 1)], [(A, 0, 1), (A, 1, 1), (A, 2, 1), (POP, 0, 0), (CHK, 2, 0)]),
 ]
@@ -72,6 +77,18 @@ def family_bound_propagation():
                     rx = (bx[0], 1, 0, bx[1], 1); ry = (by[0], 0, 1, by[1], 1)
                     out.append(([rs, rx, ry], [(A, 1, 1), (A, 2, 1), (POP, 0, 0), (POP, 0, 0), (A, 2, 1), (A, 0, 0)]))
                     out.append(([rs, rx, ry], [(A, 2, 1), (A, 1, 1), (POP, 0, 0), (POP, 0, 0), (CHK, 0, 0)]))
+    return out
+
+
+def family_implied_conflict():
+    """one decision that implies (through root clauses) two contradictory bounds of x and a further theory literal: the theory conflict is found while
+    implied literals are still waiting in the propagation queue, the learnt clause is unit, so the core backjumps to ROOT level; what was waiting
+    in the queue belongs to the undone level and must not be treated as root-level facts afterwards"""
+    r0 = (1, 0, 1, 0, 1); r1 = (3, 1, 0, 5, 1); r2 = (1, 1, 0, 3, 1); r3 = (3, 0, 1, -2, 1); r4 = (1, 0, 1, 4, 1)
+    out = []
+    out.append(([r0, r1, r2, r3], [cl(0, 0, 1, 1), cl(0, 0, 2, 1), cl(0, 0, 3, 1), (A, 0, 1), (A, 2, 1), (POP, 0, 0)]))
+    out.append(([r0, r1, r2, r3], [cl(0, 0, 2, 1), cl(0, 0, 1, 1), cl(0, 0, 3, 1), (A, 0, 1), (A, 1, 1), (A, 3, 1), (POP, 0, 0)]))
+    out.append(([r0, r1, r2, r4], [cl(0, 0, 1, 1), cl(0, 0, 2, 1), (A, 3, 1), (A, 0, 1), (A, 2, 1), (POP, 0, 0)]))   # an unrelated decision first: the backjump undoes two levels
     return out
 
 
@@ -97,6 +114,10 @@ def fmt(rels, hist):
         t = []
         if r[1]: t.append('%d*x' % r[1])
         if r[2]: t.append('%d*y' % r[2])
+        if len(r) > 5 and r[5] >= 100:
+            za, zb, zk = ZT[r[5] - 100]
+            t = (['%d*z' % r[1]] if r[1] else []) + (['%d*y' % r[2]] if r[2] else [])
+            return '%s%s %s %s [z = new_var(%d*x + %d*y + %d)]' % ('(deferred) ' if r[0] >= 10 else '', ' + '.join(t) or '0', REL[r[0] % 10], ('%d/%d' % (r[3], r[4])) if r[4] != 1 else str(r[3]), za, zb, zk)
         return '%s%s %s %s' % ('(deferred) ' if r[0] >= 10 else '', ' + '.join(t) or '0', REL[r[0] % 10], ('%d/%d' % (r[3], r[4])) if r[4] != 1 else str(r[3]))
     nm = {A: 'assume', POP: 'pop', ROOT: 'assert-at-root', CHK: 'check', REQ: 'request'}
     def one(o, c, s):
@@ -111,6 +132,7 @@ def jobs(tier):
     scs = list(CURATED)
     fb = family_bound_propagation()
     scs += fb[::2] if tier == 'quick' else fb
+    scs += family_implied_conflict()
     if tier == 'quick':
         scs += sample(rng, 40, 3, 4)
         k = 1
